@@ -31,6 +31,7 @@ type w1PubSess struct {
 	authSeen                        bool
 	idByte                          int64
 	addCallT, addRetT               time.Duration
+	addErr                          string
 }
 
 type w1Write struct {
@@ -61,7 +62,7 @@ type w1RdSess struct {
 	premoveCall, premoveRet int64
 	premoveCallT            time.Duration
 	datas                   []simrt.Ev
-	fillers                 []int64 // seqs at which the reader received filler units of an always-available stream
+	fillers                 []int64    // seqs at which the reader received filler units of an always-available stream
 	readds                  [][3]int64 // call, ret, failedWithMax
 	errSeq                  int64
 }
@@ -103,6 +104,7 @@ type w1Hist struct {
 func w1Parse(ev []simrt.Ev) *w1Hist {
 	h := &w1Hist{ev: ev, rdByNm: map[string]*w1RdSess{}, wrIndex: map[[2]int64]*w1Write{}, last: map[string]int64{}}
 	curPub := map[string]*w1PubSess{}
+	lastFailed := map[string]*w1PubSess{}
 	lastPub := map[string]*w1PubSess{}
 	pend := map[string]*w1Write{}
 	var curReload *[3]int64
@@ -139,7 +141,12 @@ func w1Parse(ev []simrt.Ev) *w1Hist {
 				p.idByte = e.K
 				if !p.ok {
 					delete(curPub, e.A)
+					lastFailed[e.A] = p
 				}
+			}
+		case "pub.add.err":
+			if p := lastFailed[e.A]; p != nil {
+				p.addErr = e.B
 			}
 		case "pub.close":
 			p := curPub[e.A]
@@ -487,11 +494,16 @@ func (h *w1Hist) completion(p *w1PubSess) int64 {
 	ntrig := 0
 	for _, q := range h.pubs {
 		if q != p && q.path == p.path && q.addCall > 0 && q.addCall < p.closeSeq && q.addRet > p.closeSeq {
-			trigger = q
+			// (a refusal decided before anybody is closed - "someone is already publishing",
+			// an authentication failure, no configuration - is not the request that closed p,
+			// and the close may come from a reload or the removal of the path instead)
+			if q.ok || strings.Contains(q.addErr, "wants to publish") {
+				trigger = q
+			}
 			ntrig++
 		}
 	}
-	if ntrig == 1 {
+	if ntrig == 1 && trigger != nil {
 		return trigger.addRet
 	}
 	for _, q := range h.pubs {
